@@ -38,7 +38,7 @@ theorem SedovFuncs_at_shock (p : SedovFuncs.P) (v : ℝ) (hleaf : SedovFuncs.lea
     SedovFuncs.l_fun p v = 1 ∧ SedovFuncs.f_fun p v = 1 ∧ SedovFuncs.g_fun p v = 1 ∧ SedovFuncs.h_fun p v = 1 := by
   obtain ⟨c0, c1⟩ := (SedovFuncs_leaf1 p v).mp hleaf
   simp only [epv_tree, c0, c1, if_false, if_true]
-  simp only [epv_leaf, h1, h2, h3, h4, Real.one_rpow, mul_one, and_self]
+  simp only [epv_semi_leaf, h1, h2, h3, h4, Real.one_rpow, mul_one, and_self]
 
 theorem SedovFuncsO2_at_shock (p : SedovFuncsO2.P) (v : ℝ) (hleaf : SedovFuncsO2.leaf p v = 1)
     (h1 : p.a_val * v = 1) (h2 : p.b_val * (p.c_val * v - 1) = 1)
@@ -47,7 +47,7 @@ theorem SedovFuncsO2_at_shock (p : SedovFuncsO2.P) (v : ℝ) (hleaf : SedovFuncs
       ∧ SedovFuncsO2.h_fun p v = 1 := by
   obtain ⟨c0, c1⟩ := (SedovFuncsO2_leaf1 p v).mp hleaf
   simp only [epv_tree, c0, c1, if_false, if_true]
-  simp only [epv_leaf, h1, h2, h4, Real.one_rpow, mul_one, sub_self, zero_mul, mul_zero, Real.exp_zero, and_self]
+  simp only [epv_semi_leaf, h1, h2, h4, Real.one_rpow, mul_one, sub_self, zero_mul, mul_zero, Real.exp_zero, and_self]
 
 theorem SedovFuncsO3_at_shock (p : SedovFuncsO3.P) (v : ℝ) (hleaf : SedovFuncsO3.leaf p v = 1)
     (h1 : p.a_val * v = 1) (h2 : p.b_val * (p.c_val * v - 1) = 1)
@@ -56,7 +56,7 @@ theorem SedovFuncsO3_at_shock (p : SedovFuncsO3.P) (v : ℝ) (hleaf : SedovFuncs
       ∧ SedovFuncsO3.h_fun p v = 1 := by
   obtain ⟨c0, c1⟩ := (SedovFuncsO3_leaf1 p v).mp hleaf
   simp only [epv_tree, c0, c1, if_false, if_true]
-  simp only [epv_leaf, h1, h2, h4, Real.one_rpow, mul_one, sub_self, zero_mul, mul_zero, zero_div, Real.exp_zero,
+  simp only [epv_semi_leaf, h1, h2, h4, Real.one_rpow, mul_one, sub_self, zero_mul, mul_zero, zero_div, Real.exp_zero,
     and_self]
 
 /-- non-vacuity: the default problem (γ = 7/5, k = 3, ω = 0) -/
